@@ -16,6 +16,7 @@ import (
 	"fmt"
 	"math/rand"
 	"os"
+	"path/filepath"
 	"runtime"
 	"sort"
 	"strconv"
@@ -375,6 +376,12 @@ func galaxyEntryPoints(seed int64) ([]*ep, func(), error) {
 			return true
 		})
 		d.Close()
+		for _, pat := range []string{"/var/lib/cni/galaxy/gxv19c*", "/var/lib/cni/galaxy/port/gxv19c*"} {
+			files, _ := filepath.Glob(pat)
+			for _, f := range files {
+				os.Remove(f)
+			}
+		}
 	}
 	return eps, cleanup, nil
 }
